@@ -163,14 +163,14 @@ func takeSnap(v any) snap {
 	if v == nil {
 		return snap{T: "nil"}
 	}
-	if s, ok := stackage.ConvertStack(v); ok && s.IsInit() {
+	if s, ok := refAsStack(v); ok && s.IsInit() {
 		sn := snap{T: "S", Kind: trueKind(s), Paren: s.IsParen()}
 		for _, e := range contents(s) {
 			sn.Kids = append(sn.Kids, takeSnap(e))
 		}
 		return sn
 	}
-	if c, ok := stackage.ConvertCondition(v); ok && c.IsInit() {
+	if c, ok := refAsCond(v); ok && c.IsInit() {
 		sn := snap{T: "C", Kw: c.Keyword(), Paren: c.IsParen()}
 		if op := c.Operator(); op != nil {
 			sn.Op = op.String()
